@@ -63,7 +63,8 @@ def run(ctx):
               "message type <- CmpHeader::getMessageType of this frame", "packet message type comes from %s" % sorted(getters_in(dec, a0, CH)))
     for row in spec["asam_unsegmented"]:
         cs = [c for c in p.calls(row["setter"])]
-        ok = len(cs) == 1 and getters_in(dec, cs[0]["args"][0], CH) == {row["source"]} and "p0:data" in depends(dec, cs[0]["args"][0])[0]
+        ok = len(cs) == 1 and getters_in(dec, cs[0]["args"][0], CH) == {row["source"]} and "p0:data" in depends(dec, cs[0]["args"][0])[0] and \
+            facts.flows_unchanged(dec, cs[0]["args"][0], row["source"])
         res.check(ok, "C04-R1", "decode:%s" % row["setter"].split("::")[-1], cs[0].get("loc") if cs else dec.loc,
                   "%s <- %s" % (row["setter"].split("::")[-1], row["source"].split("::")[-1]),
                   "%s is fed from %s, expected exactly %s" % (row["setter"], sorted(getters_in(dec, cs[0]["args"][0], CH)) if cs else "nothing", row["source"]))
@@ -111,7 +112,7 @@ def run(ctx):
         tag = row["setter"].split("::")[-1]
         if "message_types" not in row:
             cs = list(f.calls(row["setter"]))
-            ok = len(cs) == 1 and getters_in(f, cs[0]["args"][0], MH) == {row["source"]}
+            ok = len(cs) == 1 and getters_in(f, cs[0]["args"][0], MH) == {row["source"]} and facts.flows_unchanged(f, cs[0]["args"][0], row["source"])
             on_all = all(any(callee_name(x) == row["setter"] for x in q.calls()) for q in ps)
             res.check(ok and on_all, "C04-R1", "setMessageHeader:%s" % tag, cs[0].get("loc") if cs else f.loc, "%s <- %s on every path" % (tag, row["source"].split("::")[-1]),
                       "%s is not fed from exactly %s on every path" % (tag, row["source"]))
@@ -125,7 +126,7 @@ def run(ctx):
                 for nm in names:
                     cs = [x for x in q.calls(row["setter"])]
                     if nm in row["message_types"]:
-                        ok = len(cs) == 1 and getters_in(f, cs[0]["args"][0], MH) == {row["source"]}
+                        ok = len(cs) == 1 and getters_in(f, cs[0]["args"][0], MH) == {row["source"]} and facts.flows_unchanged(f, cs[0]["args"][0], row["source"])
                         res.check(ok, "C04-R1", "setMessageHeader:%s:%s" % (nm, tag), cs[0].get("loc") if cs else f.loc, "%s message: %s <- %s" % (nm, tag, row["source"].split("::")[-1]),
                                   "%s message: %s is not fed from %s" % (nm, tag, row["source"]))
                     else:
